@@ -838,7 +838,67 @@ def check_large(case, rec):
     require(bool(np.all(np.abs(div) <= 1e-9 * (tot + 1e-300) + 1e-12 * np.sum(np.abs(g._cov_sample)))), "large request: analytic divergence of the mode sum does not vanish", tags)
 
 
+# ---------------------------------------------------------------------------
+# 6. vector fields written onto meshes: the stored rows are the velocity vectors of their points
+
+
+@st.composite
+def gen_mesh(draw, tier="quick"):
+    dim = draw(st.sampled_from([2, 3]))
+    return {
+        "cls": draw(st.sampled_from(["Gaussian", "Exponential", "Matern"])),
+        "dim": dim,
+        "mode_no": draw(st.sampled_from([16, 64])),
+        "n": draw(st.integers(4, 12)),
+        "seed": draw(st.integers(0, 2**31 - 1)),
+        "mean_u": draw(st.floats(0.3, 3.0)),
+        "where": draw(st.sampled_from(["points", "centroids"])),
+        "nblk": draw(st.integers(1, 3)),
+    }
+
+
+def check_mesh(case, rec):
+    import meshio
+
+    dim, n = case["dim"], case["n"]
+    tags = {"model": case["cls"], "dim": dim, "kind": "mesh_vector_rows", "where": case["where"]}
+    rec.label("mesh_" + case["where"], f"blocks{case['nblk']}")
+    rs = np.random.RandomState(case["seed"] % (2**31 - 1))
+    pts = rs.uniform(-3, 3, (n, 3))
+    if dim == 2:
+        pts[:, 2] = 0.0
+    kinds_ = [("triangle", 3), ("line", 2), ("quad", 4)]
+    blocks = [(kinds_[b][0], rs.randint(0, n, size=(2 + b + int(rs.randint(0, n)), kinds_[b][1]))) for b in range(case["nblk"])]
+    mesh = meshio.Mesh(pts[:, :dim] if dim == 2 else pts, blocks)
+    model = getattr(gs, case["cls"])(dim=dim, var=1.3, len_scale=2.0)
+    kw = dict(generator="VectorField", mean_velocity=case["mean_u"], mode_no=case["mode_no"], seed=case["seed"] % 100000)
+    with common.quiet():
+        srf = lib(gs.SRF, model, _tags=tags, **kw)
+        ret = np.asarray(lib(srf.mesh, mesh, points=case["where"], _what="SRF.mesh", _tags=tags))
+        if case["where"] == "points":
+            at = [pts.T[:dim]]
+            stored = [np.asarray(mesh.point_data["field"])]
+        else:
+            at = [pts[c].mean(axis=1).T[:dim] for _nm, c in blocks]
+            stored = [np.asarray(a) for a in mesh.cell_data["field"]]
+        want = [np.asarray(gs.SRF(model, **kw)(p)) for p in [np.concatenate(at, axis=1)]][0]  # (dim, N) from a fresh object
+    sc = abs(case["mean_u"]) * (1.0 + math.sqrt(1.3))
+    require(ret.shape == want.shape and float(np.max(np.abs(ret - want))) <= 1e-9 * sc, "SRF.mesh returns other values than a direct call at the same points", tags)
+    off = 0
+    for b, (st_, a_) in enumerate(zip(stored, at)):
+        m_ = a_.shape[1]
+        require(st_.shape == (m_, dim), f"vector field stored on the mesh has shape {st_.shape} for {m_} points in {dim}-D (block {b})", tags)
+        w = want[:, off : off + m_].T
+        err = float(np.max(np.abs(st_ - w)))
+        rec.discrepancy("mesh_vector_rows", err, 1e-9 * sc)
+        require(err <= 1e-9 * sc, f"row i of the vector field stored on the mesh is not the velocity vector at point i (block {b}, max difference {err:.3g}); "
+                "the stored field is then neither divergence free nor has the mean (U, 0[, 0])", tags)
+        off += m_
+    rec.nontrivial(True)
+
+
 SUBS = [
+    Sub("mesh_vectors", gen_mesh, check_mesh, quick=200, thorough=4000, shards_quick=2, shards_thorough=4),
     Sub("kernel_div", gen_kernel, check_kernel, quick=480, thorough=8000, shards_quick=4, shards_thorough=4),
     Sub("fd_div", gen_fd, check_fd, quick=450, thorough=7500, shards_quick=3, shards_thorough=3),
     Sub("projector", gen_projector, check_projector, quick=600, thorough=9000, shards_quick=3, shards_thorough=3),
